@@ -12,6 +12,16 @@ CHECKS = {
             "The complete finite domain (351x351 pairs of spellings, all out-of-range neighbours) is explored by TLC, which decides the quotient/multiplicity/partition theorems; the exported oracle table is replayed through cij.util.c_/e_ for every spelling and every pair (eq+hash), and recorded library calls are validated as spec steps. Exhaustive in both directions, which is the right level for a finite domain.",
             "Trusted: TLC, CommunityModules Json, the 40-line argument builder of the harness. 'Rejected' = any exception.",
             "DESIGN.md section 4 C10"),
+    "C01": ("model_checking",
+            "TLC decides the strain-derivative identities as equalities of polynomial normal forms (spec/Thermo.tla, Poly.tla, C01.tla) and model-checks the lazily evaluated contribution object; exported normal forms and TLC-simulated read orders are replayed on the real classes",
+            "The identities (zero-point and thermal part, both non-shear classes, aggregation with Gamma mask and normalised weights, T=0 rule) are decided symbolically by TLC for all values of the atoms; conformance replays the exported normal forms on duck-typed calculators over random spectra within the stated quantifier and replays simulated access orders on real objects. Symbolic decision + sampled conformance is the strongest level available for a real-valued identity.",
+            "Trusted: the four differentiation rules stated in Thermo.tla, float evaluation (expm1) in cv/polyeval.py, CODATA literals (envelope 1e-9 on hc/k, rtol 1e-7).",
+            "DESIGN.md section 4 C01"),
+    "C02": ("model_checking",
+            "TLC decides dP/dT and the gap identity/square form/T=0 vanishing symbolically (C01.tla T_dPdT, T_Gap, T_GapSquare) and checks adi=iso for shear tasks in the scheduler model; replay on real classes",
+            "Gap identity decided symbolically for two independent modes (bilinear, hence any number); replayed against value_adiabatic - value_isothermal of the real classes on random spectra with arbitrary positive C_V; shear identity checked on all 15 keys.",
+            "Trusted: as C01.",
+            "DESIGN.md section 4 C02"),
 }
 
 NOT_YET = {
